@@ -5,11 +5,12 @@ import Driver.OpsIndex
 import Driver.OpsKmer
 import Driver.OpsPipeline
 import Driver.OpsReport
+import Driver.OpsFiles
 /-! Line-protocol driver: one operation per input line, one result per output line.
     Unknown or malformed operations print `bad-op` (never a default value). -/
 open Driver
 
-def handlers : List (List String → Option String) := [opsReport, opsQual, opsAlign, opsIndex, opsKmer, opsParser]
+def handlers : List (List String → Option String) := [opsReport, opsFiles, opsQual, opsAlign, opsIndex, opsKmer, opsParser]
 
 def step (line : String) : String :=
   if line.startsWith "pipeline " then opPipeline (line.drop 9).toString else
